@@ -10,8 +10,13 @@ SlackMs == 350
 Key(a) == <<a.fam, a.n>>
 Keys(q) == [i \in 1..Len(q) |-> Key(q[i])]
 IsPrefix(p, q) == Len(p) <= Len(q) /\ \A i \in 1..Len(p) : p[i] = q[i]
-AcceptKeys(ord) == {Key(ord[i]) : i \in {j \in 1..Len(ord) : ord[j].beh = "accept"}}
-FirstAccept(ord) == CHOOSE i \in 1..Len(ord) : ord[i].beh = "accept" /\ \A j \in 1..(i - 1) : ord[j].beh # "accept"
+\* "late": an address whose listener starts accepting only after the race has gone on (the connection is made by the
+\* SYN retransmitted after about a second); it accepts all the same
+Accepting == {"accept", "late"}
+LateMs == 1300
+AcceptKeys(ord) == {Key(ord[i]) : i \in {j \in 1..Len(ord) : ord[j].beh \in Accepting}}
+FirstAccept(ord) == CHOOSE i \in 1..Len(ord) : ord[i].beh \in Accepting /\ \A j \in 1..(i - 1) : ord[j].beh \notin Accepting
+AnyLate(ord) == \E i \in 1..Len(ord) : ord[i].beh = "late"
 BhBefore(ord, i) == Cardinality({j \in 1..(i - 1) : ord[j].beh = "blackhole"})
 
 \* an overall deadline T (ms) shorter than one race interval: only attempts started at once can still succeed, i.e. an
@@ -27,7 +32,8 @@ G17_succeedsIffSomeAccepts(e, ord) ==
 G17_winnerAccepted(e, ord) == e.res = "ok" => <<e.winner[1], e.winner[2]>> \in AcceptKeys(ord)
 G17_attemptOrder(e, ord) == IsPrefix([i \in 1..Len(e.spawns) |-> <<e.spawns[i][1], e.spawns[i][2]>>], Keys(ord))
 G17_unresponsiveCostsOneInterval(e, ord) ==
-  (e.res = "ok" /\ AcceptKeys(ord) # {}) => e.elapsed <= RaceMs * BhBefore(ord, FirstAccept(ord)) + SlackMs
+  (e.res = "ok" /\ AcceptKeys(ord) # {}) =>
+     e.elapsed <= RaceMs * BhBefore(ord, FirstAccept(ord)) + (IF AnyLate(ord) THEN LateMs ELSE 0) + SlackMs
 G17_honestFailure(e, ord) ==
   \* when no connection can have been established the error is one of the attempts' errors, with or without a deadline
   e.res # "ok" => (e.res = "err" /\ ((ord # <<>> /\ (e.T = 0 \/ AcceptKeys(ord) = {})) => e.kind \in {"Io:ConnectionRefused", "Io:TimedOut"}))
